@@ -26,17 +26,23 @@ from typing import Any, Iterator, Optional
 
 RULE = (
     "regions built from explicit lists of protoclusters (extent+core), candidate clusters (subsets of the "
-    "protoclusters), subregions and genes on small records. Families: (lin) linear record of 40: all "
-    "multisets of <= 3 protocluster extents from a 12-interval grid with touching/nested/identical/equal-start "
-    "coincidences, rotating cores, three candidate structures, 0-2 subregions; (ring) circular records of 100 "
-    "and 101: all combinations of <= 2 origin-spanning areas (core across / left / right of the origin, core "
-    "ending at L, core starting at 0) with <= 3 areas before and <= 2 after the origin from coordinate grids that "
-    "include equal starts, touching ends, containment, gap == 1, length > L/2; (whole) the same with the areas "
-    "covering the whole record so that the region is [0, L) and origin-spanning areas must be split; (pack) "
-    "chains of 3-5 short areas followed by a long origin-spanning one (first-fit rows with several contents); "
-    "genes at the region borders, across the origin, at 0 and at L. thorough adds seeded random regions. "
-    "Non-trivial: at least three drawn features (protoclusters + candidates + subregions). Distinct = distinct "
-    "case dictionaries."
+    "protoclusters: singles + interleaved-of-all / one chemical hybrid / singles + neighbouring pair + all), "
+    "subregions and 2-3 genes on small records; every case goes through js.convert_regions. Families: (lin) "
+    "linear record of 40: all multisets of <= 3 protocluster extents from a 12-interval grid with "
+    "touching/nested/identical/equal-start coincidences, rotating cores (whole extent, inner, left end, right "
+    "end), candidate structure x {no subregion, one over the hull, two overlapping}; (ring) circular records of "
+    "100 and 101 (every second case for 101): every set of <= 3 of 8 areas before the origin x every set of <= 2 "
+    "of 5 areas after it, alone and with 2 rotating origin-spanning areas and one rotating pair of them, out of "
+    "100 origin-spanning areas (4 starts x 4 ends x core across / ending at L / starting at 0 / before / after "
+    "the origin / equal to the extent, plus extents longer than half the record), every origin-spanning area "
+    "alone, every fifth pair; areas become protoclusters and/or subregions in 4 rotating modes; (whole) the "
+    "same kind of areas chosen so that they cover the whole record (region [0, L), origin-spanning areas must be "
+    "split), 6 long origin-spanning extents x 7 cores x 2 bridging areas x ~12 extras; (pack) every 3- and (every "
+    "second) 4-subset of 10 short areas before the origin followed by an origin-spanning area with 5 starts x 2 "
+    "ends (rows that already hold several contents). Genes rotate over: across the origin on both strands, at 0, "
+    "ending at L, at the region border, in the middle. thorough: finer rotations, 4-multisets, and seeded random "
+    "regions. Non-trivial: at least three features (protoclusters + candidates + subregions). Distinct = "
+    "distinct case dictionaries."
 )
 EXHAUSTIVE = {"quick": True, "thorough": False}
 
